@@ -249,6 +249,12 @@ func runCase(c Case) (st stats, err error) {
 	out := [2]uint32{128, 128}
 	var sent [2][]rtmpref.Msg
 	scsSeen := [2]bool{}
+	type keptMsg struct {
+		got  *rtmp.Message
+		want rtmpref.Msg
+		step int
+	}
+	var kept []keptMsg
 	for i, s := range c.Steps {
 		w, r := eps[s.Dir], eps[1-s.Dir]
 		var want rtmpref.Msg
@@ -320,6 +326,9 @@ func runCase(c Case) (st stats, err error) {
 		if e := rtmpx.Same(got, want); e != nil {
 			return st, fmt.Errorf("step %d (%s len=%d ts=%d, writer chunk size %d): %v", i, s.Kind, len(want.Payload), want.Timestamp, out[s.Dir], e)
 		}
+		if len(want.Payload) <= 1<<16 {
+			kept = append(kept, keptMsg{got, want, i})
+		}
 		if pipe[s.Dir].Len() != 0 {
 			return st, fmt.Errorf("step %d: %d bytes left unread after the message was returned", i, pipe[s.Dir].Len())
 		}
@@ -352,6 +361,12 @@ func runCase(c Case) (st stats, err error) {
 				return st, fmt.Errorf("step %d: message sent a second time: %v", i, e)
 			}
 			st.relayed = true
+		}
+	}
+	// a message handed to the application stays what it was while later messages are read
+	for _, k := range kept {
+		if e := rtmpx.Same(k.got, k.want); e != nil {
+			return st, fmt.Errorf("message returned at step %d changed while later messages were read: %v", k.step, e)
 		}
 	}
 	// independent view of the wire
